@@ -73,6 +73,8 @@ class Sched:
         self.max_switches = max_switches
         self.rr = 0
         self.overrun = False
+        import random as _random
+        self.rng = _random.Random(int(policy[5:]) if policy.startswith('rand:') else 0)
 
     def spawn(self, name: str, fn: Callable[[], Any]) -> Proc:
         p = Proc(name, fn)
@@ -126,6 +128,8 @@ class Sched:
             name = pol[5:]
             first = [q for q in hi if q.name.startswith(name)]
             hi = first or hi
+        elif pol.startswith('rand:'):
+            return hi[self.rng.randrange(len(hi))]
         elif pol == 'lifo':
             return hi[-1]
         elif pol == 'fifo':
@@ -342,6 +346,7 @@ class AQueue(Native):
             w.sched.block(lambda: len(self.items) < self.maxsize, f'put on full {self.id}')
         self.items.append(x)
         self.history.append(x)
+        w.put_log.append((self.label(), x, w.where()))
         w.event('put', self.id, x)
         w.sched.yield_()
 
@@ -435,6 +440,7 @@ class AEnd(Native):
         if self.closed:
             raise FoldRaise('OSError', 'send on a closed connection')
         w.conn_trace.setdefault(self.cid, []).append((self.side, m))
+        w.conn_where.setdefault(self.cid, []).append((self.side, w.where()))
         w.event('send', f'{self.cid}:{self.side}', m)
         if self.peer is not None and not self.peer.closed:
             self.peer.inbox.append(m)
@@ -810,6 +816,8 @@ class World:
         self.listeners: Dict[tuple, ASock] = {}
         self.conn_trace: Dict[str, list] = {}
         self.conn_owner: Dict[str, str] = {}
+        self.conn_where: Dict[str, list] = {}
+        self.put_log: list = []
         self.files: List[AFile] = []
         self.log_records: list = []
         self.queue_names: Dict[int, str] = {}
@@ -1009,7 +1017,8 @@ class World:
             p.folder = f
 
             def on_stmt(st, env, mod, ci):
-                p.cur_stmt, p.cur_mod = st, mod
+                if not self.sched.killing and p.state == 'running':
+                    p.cur_stmt, p.cur_mod = st, mod
             f.on_stmt = on_stmt
             return thunk(f)
         return body
